@@ -113,12 +113,56 @@ static size_t c20_gen(long idx, uint8_t *payload, char *human, size_t hn) {
 	snprintf(human, hn, "features(master,oc1,lc1)=%d,%d,%d initial-values-mask=%02x present(oc1,lc1,booster2)=%d%d%d feature-answer-xor=%d", c.f0, c.f1, c.f2, c.initmask, c.presence & 1, (c.presence >> 1) & 1, (c.presence >> 2) & 1, c.fxor);
 	return 8;
 }
-void c20_register(void) { harness_register("c20.start", c20_child); }
+
+/* ---------------------------------------------------------------- c20.vanish: a board drops off during the enumeration
+ * All three optional boards are configured with a feature and initial values and present when the node table is read for the
+ * first time; while it is being read (at the k-th MSG_NODETAB_GETNEXT, k = 0..5) one of them disappears and the interface
+ * announces the changed table (MSG_NODETAB_COUNT), so the library reads it again.  The transcript must be the one for the
+ * FINAL tree: nothing — no feature, no initial value, no track-on — for the board that is gone. */
+static int van_board, van_at, van_seen, van_done; static cm_model_t *van_model;
+static int vanish_hook(int node, const rc_msg_t *m) {
+	if (m->type != MSG_NODETAB_GETNEXT || van_done || node != 0) return 0;
+	if (van_seen++ != van_at) return 0;
+	van_done = 1;
+	int sbn = van_model->b[van_board].sbnode; SB.n[sbn].present = 0; van_model->b[van_board].present = 0;
+	SB.n[0].tab_version++; SB.n[0].tab_iter = 0;
+	int rows = 1; for (int i = 0; i < SB.nn; i++) if (SB.n[i].parent == 0 && SB.n[i].present) rows++;
+	uint8_t d = (uint8_t) rows; sb_send(0, MSG_NODETAB_COUNT, &d, 1);
+	res_printf("C table_changes_applied 1\n");
+	return 1;
+}
+static void vanish_child(const void *job, size_t n) {
+	vs_dev_t devs[VS_MAXDEV]; int nd; size_t pl; const uint8_t *p = job_parse(job, n, devs, &nd, &pl);
+	van_board = 1 + p[0] % 3; van_at = p[0] / 3; van_seen = 0; van_done = 0; int second_reset = p[1];
+	c20_case_t c = { 1, 2, 1, 0x3F, 7, 0 }; static cm_model_t m; build(&m, &c); van_model = &m;
+	hx_child_begin(NULL, 0, 0, NULL, 0, 120ull * 1000000ull);
+	cm_install(&m); SB.on_msg = vanish_hook;
+	if (second_reset) { van_done = 1; }      /* variant: the board vanishes during the enumeration of a later system reset */
+	int rc = hx_start_normal(0); hx_quiesce();
+	char what[120]; snprintf(what, sizeof what, "%s vanishes at GETNEXT #%d of %s", m.b[van_board].id, van_at, second_reset ? "a later reset" : "start-up");
+	if (rc) res_violation("start-failed", "%s: bidib_start_pointer returned %d", what, rc);
+	else {
+		if (second_reset) { int mark = SB.nlog; van_done = 0; van_seen = 0; bidib_send_sys_reset(0); hx_quiesce(); if (van_done) check_segment(&m, mark, SB.nlog, what); }
+		else if (van_done) { int reset_at = 0; for (int i = 0; i < SB.nlog; i++) if (SB.log[i].type == MSG_SYS_RESET) reset_at = i; check_segment(&m, reset_at, SB.nlog, what); }
+	}
+	hx_emit_ledger_violations("C20");
+	hx_hash_t h; hx_hash_init(&h); for (int i = 0; i < SB.nlog; i++) { hx_hash_add(&h, SB.log[i].addr, 4); hx_hash_add(&h, &SB.log[i].type, 1); hx_hash_add(&h, SB.log[i].data, (size_t) SB.log[i].dlen); }
+	res_printf("O %llx %llx\n", (unsigned long long) h.a, (unsigned long long) h.b);
+	res_finish();
+}
+static size_t vanish_gen(long idx, uint8_t *payload, char *human, size_t hn) {
+	payload[0] = (uint8_t) (idx % 18); payload[1] = (uint8_t) (idx / 18);
+	static const char *bn[3] = {"oc1", "lc1", "booster2"}; snprintf(human, hn, "%s vanishes at GETNEXT #%d during %s", bn[payload[0] % 3], payload[0] / 3, payload[1] ? "a later system reset" : "start-up"); return 2;
+}
+void c20_register(void) { harness_register("c20.start", c20_child); harness_register("c20.vanish", vanish_child); }
 int c20_run(const char *tier) {
 	int thorough = !strcmp(tier, "thorough");
 	stride = 1; (void) thorough;
 	ex_spec_t e = { .harness = "c20.start", .ncases = c20_count() / stride, .gen = c20_gen, .label = "c20.start" };
 	ex_map(&e);
+	ex_spec_t v = { .harness = "c20.vanish", .ncases = 36, .gen = vanish_gen, .label = "c20.vanish" };
+	ex_map(&v); e.done += v.done; e.distinct_outcomes += v.distinct_outcomes; if (!v.exhaustive) e.exhaustive = 0;
+	rep_note("c20.vanish: %ld cases (3 boards x GETNEXT #0..5 x {start-up, later reset}), table change applied in %ld", v.done, rep_get("table_changes_applied"));
 	rep_count("executions", e.done); rep_count("states", e.distinct_outcomes); rep_count("transitions", e.done * 2); rep_flag("exhaustive", e.exhaustive);
 	rep_note("configurations x trees executed=%ld (each: start-up transcript + transcript after a further bidib_send_sys_reset), distinct transcripts=%ld", e.done, e.distinct_outcomes);
 	return 0;
